@@ -23,7 +23,7 @@ type obvIn struct {
 	Cfg        instCfg            `json:"cfg"`
 	Seq        uint64             `json:"seq"`
 	Prev       string             `json:"previous_outcome_hex"`
-	Att        string             `json:"cache"` // none | blob | fail
+	Att        string             `json:"cache"`         // none | blob | fail
 	Retire     string             `json:"should_retire"` // false | true | fail
 	Expected   map[uint32]defDesc `json:"expected_definitions"`
 	Values     map[uint32]*svDesc `json:"data_source_values"`
